@@ -59,12 +59,19 @@ def is_cmakedefine_line(s):
     return len(s.lstrip()) >= 2 and s.lstrip()[0] == '#' and s.lstrip()[1:].lstrip().startswith('cmakedefine')
 
 
+@REG.spec([Str, Str], Str)
+def keep_eol(rendered, line):
+    """a define line keeps the line ending of its template line (the renderer ends its line with a newline character); a line
+    without any terminator keeps the renderer's newline"""
+    return (rendered[:-1] + line[len(line.rstrip('\r\n')):]) if line[len(line.rstrip('\r\n')):] else rendered
+
+
 @REG.spec([Obj, Seq(Str), Obj, Int], Seq(Str))
 def meson_lines(regex, data, confdata, n):
     """the rendering of the first n lines of a meson-format template"""
     if n <= 0:
         return EMPTY
-    return meson_lines(regex, data, confdata, n - 1) + unit(render_mesondefine(regex, data[n - 1], confdata) if is_mesondefine_line(data[n - 1]) else render_meson_subst(regex, data[n - 1], confdata).text)
+    return meson_lines(regex, data, confdata, n - 1) + unit(keep_eol(render_mesondefine(regex, data[n - 1], confdata), data[n - 1]) if is_mesondefine_line(data[n - 1]) else render_meson_subst(regex, data[n - 1], confdata).text)
 
 
 @REG.spec([Seq(Str), Obj, Bool, Int], Seq(Str))
@@ -72,4 +79,4 @@ def cmake_lines(data, confdata, at_only, n):
     """the rendering of the first n lines of a cmake-format template"""
     if n <= 0:
         return EMPTY
-    return cmake_lines(data, confdata, at_only, n - 1) + unit(render_cmakedefine(data[n - 1], confdata, at_only) if is_cmakedefine_line(data[n - 1]) else render_cmake_subst(data[n - 1], at_only, confdata).text)
+    return cmake_lines(data, confdata, at_only, n - 1) + unit(keep_eol(render_cmakedefine(data[n - 1], confdata, at_only), data[n - 1]) if is_cmakedefine_line(data[n - 1]) else render_cmake_subst(data[n - 1], at_only, confdata).text)
